@@ -228,16 +228,17 @@ class Recorder:
         self.pending_readd.discard(label)
         self.events.append({"op": "remove_arm", "arm": label, "post": self.post()})
 
-    def query(self, x):
+    def query(self, x, real=None):
+        """real: float coordinates actually passed (cluster centres); the event then carries a placeholder context."""
         cfg = self.cfg
-        self.calls.append({"op": "query", "q": list(x)})
+        self.calls.append({"op": "query", "q": list(x), "real": None if real is None else [float(v) for v in real]})
         before = snapshot(self.mab, rng=False, skip=("arm_to_expectation",) if cfg.lp == "ts" else ())
         twin = copy.deepcopy(self.mab)
         twin2 = copy.deepcopy(self.mab)
         gen = copy.deepcopy(self.mab._rng)
         seed = int(gen.randint(INT32_MAX, size=1)[0])
-        qg = self.geo_query(x)
-        ctx = [list(map(float, x))]
+        qg = self.geo_query(x if real is None else real)
+        ctx = [list(map(float, x if real is None else real))]
         result = self.mab.predict_expectations(ctx)
         after = snapshot(self.mab, rng=False, skip=("arm_to_expectation",) if cfg.lp == "ts" else ())
         where = {"event": len(self.events) + 1, "q": list(x)}
@@ -278,12 +279,64 @@ class Recorder:
                              "arms": list(self.arms), "calls": list(self.calls),
                              "tags": ["clusters_readded_arm_pending"] if self.pending_readd else []})
 
+    def query_batch(self, xs):
+        """Several context rows in one call: one query event per row, results in row order (C08, C05)."""
+        cfg = self.cfg
+        m = len(xs)
+        self.calls.append({"op": "query_batch", "rows": [list(x) for x in xs]})
+        skip = ("arm_to_expectation",) if cfg.lp == "ts" else ()
+        before = snapshot(self.mab, rng=False, skip=skip)
+        twin = copy.deepcopy(self.mab)
+        twin2 = copy.deepcopy(self.mab)
+        seeds = [int(s) for s in copy.deepcopy(self.mab._rng).randint(INT32_MAX, size=m)]
+        ctx = [list(map(float, x)) for x in xs]
+        where = {"event": len(self.events) + 1, "rows": [list(x) for x in xs], "tags": []}
+        try:
+            result = self.mab.predict_expectations(ctx)
+        except Exception as error:  # noqa
+            self.finding("predict.exception", "predict_expectations of %d rows raised %s: %s" % (m, type(error).__name__, error), where)
+            return
+        if snapshot(self.mab, rng=False, skip=skip) != before:
+            self.finding("readonly.changed", "predict_expectations changed the model", where)
+        arms = list(self.mab.arms)
+        if not isinstance(result, list) or len(result) != m or any(not isinstance(r, dict) or list(r.keys()) != arms for r in result):
+            self.finding("shape.rows", "predict_expectations with %d rows returned %r" % (m, _short(result)), where)
+            return
+        try:
+            picks = twin.predict(ctx)
+        except Exception as error:  # noqa
+            stale = cfg.no_nhood is not None and len(cfg.no_nhood) != len(arms)
+            where["tags"] = ["no_nhood_prob_not_extended_by_add_arm"] if stale else []
+            self.finding("predict.exception", "predict raised %s: %s" % (type(error).__name__, error), where)
+            picks = None
+        if picks is not None:
+            if not isinstance(picks, list) or len(picks) != m:
+                self.finding("shape.rows", "predict with %d rows returned %r" % (m, picks), where)
+            else:
+                tree_eps = cfg.np == "tree" and cfg.lp == "eg" and cfg.epsilon > 0
+                for arm, row in zip(picks, result):
+                    if arm not in arms:
+                        self.finding("shape.member", "predict returned %r, not in %r" % (arm, arms), where)
+                    elif not all(v != v for v in row.values()) and arm != first_argmax(arms, row) and not tree_eps:
+                        self.finding("argmax.first", "predict returned %r for a row whose expectations from the same stream "
+                                     "position are %r" % (arm, row), where)
+        for i, x in enumerate(xs):
+            self.events.append({"op": "query", "q": list(x), "qg": self.geo_query(x)})
+            self.queries.append({"event": len(self.events), "q": list(x), "result": result[i], "twin": twin2, "seed": seeds[i],
+                                 "arms": list(self.arms), "calls": list(self.calls),
+                                 "tags": ["clusters_readded_arm_pending"] if self.pending_readd else []})
+
     def finding(self, clause, detail, where):
         self.findings.append({"clause": clause, "detail": detail, "op": "query" if "q" in where else where.get("op"),
                               "label": where, "path": list(self.calls), "binding": self.cfg.describe(), "engine": "nb"})
 
     def trace(self):
         return {"arms": list(self.cfg.arms), "bin": self.cfg.init_bin, "events": self.events}
+
+
+def _short(v):
+    text = repr(v)
+    return text if len(text) < 200 else text[:200] + "..."
 
 
 def grid_points(cfg, rnd, n):
@@ -309,7 +362,7 @@ def scenario(cfg, rnd, steps=8):
     if cfg.np == "clusters":
         # k-means needs at least n_clusters distinct points to be meaningful
         pts = list({r[2] for r in first})
-        while len(pts) < cfg.n_clusters:
+        while len(pts) < min(cfg.n_clusters, cfg.grid ** cfg.dims) or len(first) < cfg.n_clusters:
             first.append(batch(1)[0])
             pts = list({r[2] for r in first})
     rec.train("fit", first)
@@ -318,6 +371,10 @@ def scenario(cfg, rnd, steps=8):
         roll = rnd.random()
         if roll < 0.3:
             rec.train("partial_fit", batch(rnd.randrange(1, 4)))
+        elif roll < 0.42:
+            pts = [rnd.choice(rec.rows)[2] if rnd.random() < 0.5 else tuple(rnd.randrange(-1, cfg.grid + 2) for _ in range(cfg.dims))
+                   for _ in range(rnd.randrange(2, 5))]
+            rec.query_batch(pts)
         elif roll < 0.78:
             kind = rnd.random()
             if kind < 0.45 and rec.rows:
@@ -335,6 +392,13 @@ def scenario(cfg, rnd, steps=8):
             free.append(victim)
         else:
             rec.train("fit", batch(max(need, rnd.randrange(2, 6))))
+        if cfg.np == "clusters" and rnd.random() < 0.5:
+            # queries at the centres, in particular of clusters that received no row (MiniBatchKMeans)
+            km = rec.mab._imp.kmeans
+            counts = np.bincount(km.labels_, minlength=cfg.n_clusters)
+            empty = [c for c in range(cfg.n_clusters) if counts[c] == 0]
+            for c in (empty or [rnd.randrange(cfg.n_clusters)])[:2]:
+                rec.query(tuple([-999] * (cfg.dims - 1) + [-1000 - c]), real=km.cluster_centers_[c])
     rec.query(rnd.choice(rec.rows)[2])
     return rec
 
